@@ -117,6 +117,29 @@ var probesByType = map[string][][]string{
 	"stream": {{"XADD", "9-1", "g", "w"}, {"XRANGE", "-", "+"}, {"EXISTS"}, {"TYPE"}, {"TTL"}, {"XADD", "NOMKSTREAM", "9-1", "g", "w"}},
 }
 
+// writes of another type: from the deadline on they must start from an empty key (not answer WRONGTYPE because the
+// dead value is still lying around), before it they must fail with WRONGTYPE and change nothing
+func init() {
+	strWrites := [][]string{{"SET", "new"}, {"SETNX", "new"}, {"APPEND", "zz"}, {"INCR"}, {"SETRANGE", "1", "x"}, {"MSET", "new"}, {"SETEX", "100000", "new"}, {"SET", "new", "XX"}, {"INCRBYFLOAT", "1.5"}, {"GET"}, {"STRLEN"}}
+	other := map[string][][]string{
+		"list":   {{"LPUSH", "n"}, {"RPUSH", "n"}, {"LPUSHX", "n"}, {"LLEN"}},
+		"set":    {{"SADD", "n"}, {"SCARD"}},
+		"hash":   {{"HSET", "g", "2"}, {"HINCRBY", "f", "5"}, {"HSETNX", "f", "9"}, {"HLEN"}},
+		"zset":   {{"ZADD", "3", "c"}},
+		"stream": {{"XADD", "9-1", "g", "w"}},
+	}
+	for typ := range probesByType {
+		if typ != "string" {
+			probesByType[typ] = append(probesByType[typ], strWrites...)
+		}
+		for t2, ws := range other {
+			if t2 != typ {
+				probesByType[typ] = append(probesByType[typ], ws...)
+			}
+		}
+	}
+}
+
 func buildProbe(tpl []string, k string) []string {
 	name := tpl[0]
 	if name == "SUNIONSTORE@" {
